@@ -369,8 +369,9 @@ impl Circle2 {
         }
 
         let r_sum = self.ball.radius + other.ball.radius;
-        if d > r_sum {
-            // Circles are too far apart
+        let r_diff = (self.ball.radius - other.ball.radius).abs();
+        if d > r_sum || d < r_diff {
+            // Circles are too far apart, or one lies entirely inside the other
             return result;
         }
 
@@ -378,8 +379,8 @@ impl Circle2 {
         let a = (self.ball.radius.powi(2) - other.ball.radius.powi(2) + d.powi(2)) / (2.0 * d);
         let p2 = self.center + (v * a);
 
-        if (d - r_sum).abs() < TOL {
-            // Circles are touching
+        if (d - r_sum).abs() < TOL || (d - r_diff).abs() < TOL {
+            // Circles are touching (externally or internally)
             result.push(p2);
             return result;
         }
